@@ -71,6 +71,11 @@ NEARS = [
     {'exit': 1, 'out': 'sat\n', 'err': runs.ACCEPT['err']},
     {'exit': 2, 'out': runs.ACCEPT['out'], 'err': runs.ACCEPT['err']},
     {'exit': 1, 'out': runs.ACCEPT['out'], 'err': ''},
+    # the golden text under other line endings
+    {'exit': 1, 'out': runs.ACCEPT['out'].replace('\n', '\r\n'),
+     'err': runs.ACCEPT['err']},
+    {'exit': 1, 'out': runs.ACCEPT['out'],
+     'err': runs.ACCEPT['err'].replace('\n', '\r')},
 ]
 
 
@@ -141,6 +146,19 @@ def make_configs(r, n):
                      ['--strategy', st, '-j', '2'] + list(om),
                      {'strategy': st, 'jobs': 2, 'outmode': list(om),
                       'n': f'Q{k}', 'compare': {}}))
+    # candidates whose output is the golden one under other line endings,
+    # compared exactly: never acceptable
+    for k, (st, j, beh) in enumerate((('ddmin', 1, NEARS[-2]),
+                                      ('hierarchical', 2, NEARS[-1]),
+                                      ('hybrid', 2, NEARS[-2]))):
+        cfgs.append((corpus.FLAT,
+                     {'mode': 'contains', 'markers': ['check-sat', '3'],
+                      'near': {'pred': {'mode': 'contains',
+                                        'markers': ['check-sat']},
+                               'beh': beh, 'acceptable': False}},
+                     ['--strategy', st, '-j', str(j)],
+                     {'strategy': st, 'jobs': j, 'outmode': [],
+                      'n': f'L{k}', 'compare': {}}))
     # the failure is triggered by what the reader cannot represent (a file
     # cut off inside its last command, a stray closing parenthesis): no
     # candidate reproduces it, nothing is accepted - and then there is no
